@@ -38,6 +38,9 @@ def reuse_stage(tier_, key):
             cfgs.append(corpus.cfg(P, 5, 30))
             cfgs.append(corpus.cfg(P, 0, 0))
             cfgs.append(corpus.cfg(P, 20, 60, muts=corpus.MUTS, rate=0.5, ext=True, buf=True))
+            # the buffer-size option (small enough that outputs exceed it) and a doubly registered mutator
+            cfgs.append(corpus.cfg(P, 100, 400, bufsize=[256, 1024, 2048][P % 3]))
+            cfgs.append(corpus.cfg(P, 20, 60, muts=corpus.DUP_LISTS[P % 4], rate=0.7, unsafe=(P % 2 == 1)))
             if P in (1, 4) or tier_ == "thorough":
                 cfgs.append(corpus.cfg(P, 1000, 2000))      # outputs of tens of KiB: buffers that grew in an earlier call
             if tier_ == "thorough":
@@ -114,6 +117,11 @@ def determinism_stage(tier_, key):
                 J.bytes_job(corpus.cfg(P, 20, 80), blen=J.rng.choice([0, 1, 2, 3, 5, 8, 13, 21, 34, 55, 89, 144, 200]))
             for kind in ("empty", "zero", "ff"):
                 J.bytes_job(corpus.cfg(P, 20, 80, muts=corpus.MUTS, rate=0.5), kind=kind, blen=16)
+            # a mutator registered more than once; the buffer-size option
+            for ms in corpus.DUP_LISTS:
+                J.seed_job(corpus.cfg(P, 60, 160, muts=ms, rate=0.5))
+                J.seed_job(corpus.cfg(P, 60, 160, muts=ms, rate=1.0, unsafe=True))
+            J.seed_job(corpus.cfg(P, 100, 300, bufsize=512)); J.bytes_job(corpus.cfg(P, 100, 300, bufsize=64), blen=3000)
             # configurations that differ in ONE setting, generated in different orders by the threads /
             # processes: anything cached across generator instances under too coarse a key shows up
             grp = []
@@ -190,13 +198,18 @@ def total_stage(tier_, key):
                         dict(corpus.cfg(P, 20, 80, muts=allm), rate_special="nan"),
                         dict(corpus.cfg(P, 20, 80, muts=allm, unsafe=True), rate_special="inf"),
                         corpus.cfg(P, 20, 80, muts=allm, rate=7.5, rate_raw=True),
-                        corpus.cfg(P, 20, 80, muts=list(reversed(allm)), rate=-3.0, rate_raw=True, unsafe=True)]
+                        corpus.cfg(P, 20, 80, muts=list(reversed(allm)), rate=-3.0, rate_raw=True, unsafe=True),
+                        corpus.cfg(P, 20, 80, muts=["typeconfusion", "typeconfusion"], rate=1.0, unsafe=True),
+                        corpus.cfg(P, 20, 80, muts=corpus.DUP_LISTS[P % 4] + corpus.DUP_LISTS[(P + 1) % 4], rate=0.6, unsafe=True, ext=True, buf=True),
+                        corpus.cfg(P, 20, 80, muts=allm + allm, rate=1.0, bufsize=[0, 1, 64][P % 3])]
             for v in variants:
                 add(v, "random", n=400 if q else 4000, maxlen=4096)
                 add(v, "seeds", n=300 if q else 3000)
             # value-directed inputs: tiny programs whose first value opcode receives boundary bit patterns
             for ms in ([[m] for m in corpus.MUTS[:6]] + [allm]) if (not q or P in (0, 2, 5)) else [["offbyone"], ["bitflip"], allm]:
                 add(corpus.cfg(P, 1, 2, muts=ms, rate=1.0, ext=True, buf=True), "shaped")
+            # several KiB of periodic input on a 2 MiB thread stack (deepest nesting such input can build)
+            add(corpus.cfg(P, 8192, 8192), "nest", n=40 if q else 400, maxlen=8192)
             add(corpus.cfg(P, 20000, 20001) if q else corpus.cfg(P, 50000, 50001), "seeds", n=1)
             add(corpus.cfg(P, 5000, 9000, muts=allm, rate=1.0, unsafe=True), "random", n=2, maxlen=60000)
         spec = {"batches": batches, "timeout_s": 600 if q else 3000, "parallel": CORES - 2}
@@ -547,6 +560,9 @@ def front_stage(tier_, key):
             if c["mode"] == "single":
                 fp = os.path.join(d, "front_single.pkl")
                 if os.path.exists(fp): os.remove(fp)
+                if c["id"] % 2 == 1:
+                    # history of the file system: a longer file from an earlier run is already there
+                    open(fp, "wb").write(b"\x2e" * 300000); what += " [over an existing longer file]"; base["what"] = what
                 p = run([exe] + cli_args(o, [fp]), check=False, timeout=600)
                 got = open(fp, "rb").read().hex() if os.path.exists(fp) else ""
                 recs.append(dict(base, exit=min(p.returncode, 1), want_exit=0, files=[], want_files=[], got=got, lib=lib[c["id"]]))
@@ -556,6 +572,12 @@ def front_stage(tier_, key):
                 if os.path.exists(od): os.remove(od)
                 if c["mode"] == "batch-fail":
                     open(od, "w").write("not a directory")
+                elif c["id"] % 2 == 1:
+                    # the directory already holds longer files 0.pkl..N-1.pkl from an earlier, different run
+                    os.makedirs(od)
+                    for i in range(c["n"]):
+                        open(os.path.join(od, "%d.pkl" % i), "wb").write(b"\x2e" * 300000)
+                    base["what"] = what + " [over existing longer files]"
                 p = run([exe] + cli_args(o, ["--dir", od, "--samples", str(c["n"])]), env={"RAYON_NUM_THREADS": str(c["threads"])}, check=False, timeout=1200)
                 if c["mode"] == "batch-fail":
                     os.remove(od)
